@@ -53,6 +53,94 @@ theorem interleave2_get (a b : List R) (t : Nat) (ht : t < a.length) :
     have h3 : (2*t+1) / 2 = t := by omega
     simp [h1, h2, h3]
 
+omit [CommRing R] in
+theorem pyBound_nat (n a : Nat) (h : a ≤ n) : pyBound n (a : Int) = a := by
+  unfold pyBound
+  have h1 : ¬ ((a:Int) < 0) := by omega
+  have h2 : ¬ ((n:Int) < (a:Int)) := by omega
+  simp [h1, h2]
+
+theorem slice2From_eq (x : List R) (a : Nat) (h : a ≤ x.length) :
+    slice2From x (a : Int) = tab ((x.length - a + 1) / 2) fun i => getN x (a + 2*i) := by
+  unfold slice2From slice2
+  rw [pyBound_nat _ _ h, pyBound_nat _ _ (le_refl _)]
+
+/-- element of the symmetric-extension gather -/
+theorem getN_symmPad (x : List R) (m i : Nat) (hi : i < m + x.length + m) :
+    getN (symmPad x m) i = Spec.xt x ((i:Int) - m) := by
+  unfold symmPad Spec.xt
+  rw [getN_eq_getZ, getZ_padIdx _ _ _ _ _ (by positivity) (by exact_mod_cast hi)]
+
+/-- one tree of `coldfilt`: stride-2 correlation of every second extended sample, starting at `s ∈ {2,3}` -/
+theorem tree_get (h x : List R) (s v : Nat) (hs : s = 2 ∨ s = 3) (hr : x.length % 4 = 0) (hr0 : 0 < x.length)
+    (hm : 1 ≤ h.length) (hv : v < x.length / 4) :
+    getN (corr h.reverse (slice2From (symmPad x h.length) (s:Int)) 2 1) v
+      = ∑ j ∈ range h.length, getN h (h.length - 1 - j) * Spec.xt x (4*(v:Int) + 2*(j:Int) + s - h.length) := by
+  have hlen : (symmPad x h.length).length = h.length + x.length + h.length := by simp [symmPad]
+  rw [slice2From_eq _ _ (by rw [hlen]; omega)]
+  have hcnt : ((symmPad x h.length).length - s + 1) / 2 = x.length / 2 + h.length - 1 := by
+    rw [hlen]; rcases hs with rfl | rfl <;> omega
+  rw [hcnt, getN_corr2 _ _ v (by simp [corrLen]; split <;> omega)]
+  simp only [List.length_reverse]
+  apply Finset.sum_congr rfl; intro j hj
+  have hj' : j < h.length := by simpa using hj
+  have e1 : getN h.reverse j = getN h (h.length - 1 - j) := by
+    have := getN_reverse h (h.length - 1 - j) (by omega)
+    have h2 : h.length - 1 - (h.length - 1 - j) = j := by omega
+    rw [h2] at this; exact this
+  rw [e1, ← getN_eq_getZ, getN_tab]
+  have hlt : 2*v + j < x.length / 2 + h.length - 1 := by omega
+  simp only [hlt, if_true]
+  rw [getN_symmPad _ _ _ (by rcases hs with rfl | rfl <;> omega)]
+  congr 2
+  push_cast; ring
+
+/-- `coldfilt(X, prep_filt(ha), prep_filt(hb), highpass)` is the reference formula: trees
+`a v = Σ_j ha[m−1−j]·x̃(4v+2j+2−m)`, `b v = Σ_j hb[m−1−j]·x̃(4v+2j+3−m)`, interleaved (tree b first for the
+high-pass), for every column length that is a positive multiple of 4 and every filter length. -/
+theorem coldfilt1_eq_ref (ha hb x : List R) (hp : Bool) (hr : x.length % 4 = 0) (hr0 : 0 < x.length)
+    (hm : 1 ≤ ha.length) (hab : hb.length = ha.length) :
+    coldfilt1 (prepFilt ha) (prepFilt hb) hp x = some (Spec.coldfilt ha hb hp x) := by
+  have hg : ¬ (x.length % 4 ≠ 0 ∨ x.length = 0) := by omega
+  unfold coldfilt1 prepFilt Spec.coldfilt
+  rw [if_neg hg]
+  simp only [List.length_reverse]
+  congr 1
+  have la : (corr ha.reverse (slice2From (symmPad x ha.length) 2) 2 1).length = x.length / 4 := by
+    have hlen : (symmPad x ha.length).length = ha.length + x.length + ha.length := by simp [symmPad]
+    have := slice2From_eq (symmPad x ha.length) 2 (by rw [hlen]; omega)
+    simp only [Nat.cast_ofNat] at this
+    rw [this, corr_length, length_tab, List.length_reverse, hlen]; unfold corrLen; split <;> omega
+  have lb : (corr hb.reverse (slice2From (symmPad x ha.length) 3) 2 1).length = x.length / 4 := by
+    have hlen : (symmPad x ha.length).length = ha.length + x.length + ha.length := by simp [symmPad]
+    have := slice2From_eq (symmPad x ha.length) 3 (by rw [hlen]; omega)
+    simp only [Nat.cast_ofNat] at this
+    rw [this, corr_length, length_tab, List.length_reverse, hlen, hab]; unfold corrLen; split <;> omega
+  have ta := fun v hv => tree_get ha x 2 v (Or.inl rfl) hr hr0 hm hv
+  have tb := fun v hv => tree_get hb x 3 v (Or.inr rfl) hr hr0 (by omega) hv
+  simp only [Nat.cast_ofNat, hab] at ta tb
+  cases hp
+  · simp only [Bool.false_eq_true, if_false]
+    unfold interleave2
+    apply tab_ext (by rw [la]; omega)
+    intro i hi
+    rw [la] at hi
+    have hv : i / 2 < x.length / 4 := by omega
+    rw [sumN_eq, sumN_eq]
+    split
+    · rw [ta _ hv]
+    · rw [tb _ hv]
+  · simp only [if_true]
+    unfold interleave2
+    apply tab_ext (by rw [lb]; omega)
+    intro i hi
+    rw [lb] at hi
+    have hv : i / 2 < x.length / 4 := by omega
+    rw [sumN_eq, sumN_eq]
+    split
+    · rw [tb _ hv]
+    · rw [ta _ hv]
+
 /-- `coldfilt` raises exactly when the column length is not a positive multiple of 4, and
 otherwise returns half as many rows -/
 theorem coldfilt1_raises_iff (ha hb x : List R) (hp : Bool) :
